@@ -5,6 +5,7 @@ import (
 	"runtime"
 	"strings"
 	"sync"
+	"sync/atomic"
 	"time"
 
 	fpgo "github.com/TeaEntityLab/fpGo/v2"
@@ -249,6 +250,59 @@ func c14MiscScenario(id string, seed int64) core.Scenario {
 				round = 1000
 			}
 		}
+		// Start is idempotent also when the second call follows at once (a "start everything" loop): ONE instance of the
+		// effect runs, a single caller gets y1..yn in order, StartWithVal's value reaches the first YieldRef
+		for round := 0; round < 400; round++ {
+			var instances atomic.Int32
+			var gen3 *fpgo.CorDef[int64]
+			withVal := round%2 == 1
+			hold := make(chan struct{})
+			var first int64 = -1
+			gen3 = fpgo.CorNewGenerics[int64](func() {
+				instances.Add(1)
+				if withVal {
+					first = gen3.YieldRef(-5)
+				}
+				for k := int64(1); k <= 4; k++ {
+					gen3.YieldRef(k)
+				}
+				<-hold // never returns before the verdict: two instances must not race their close()
+			})
+			if withVal {
+				gen3.StartWithVal(1000)
+			} else {
+				gen3.Start()
+			}
+			gen3.Start()
+			if round%4 >= 2 {
+				gen3.Start()
+			}
+			got := make(chan []int64, 1)
+			var caller *fpgo.CorDef[int64]
+			caller = fpgo.CorNewGenerics[int64](func() {
+				var ys []int64
+				for k := 0; k < 4; k++ {
+					ys = append(ys, caller.YieldFrom(gen3, int64(10+k)))
+				}
+				got <- ys
+			})
+			caller.Start()
+			var ys []int64
+			select {
+			case ys = <-got:
+			case <-time.After(20 * time.Second):
+				c.Inconclusive("double-start round did not finish in " + id)
+			}
+			n := instances.Load()
+			close(hold)
+			if ys == nil {
+				break
+			}
+			if n != 1 || !eqSeq(ys, []int64{1, 2, 3, 4}) || (withVal && first != 1000) {
+				c.Violationf("Start:effect-ran-again", rep, "Start()%s followed at once by Start(): %d instances of the effect ran, the single caller received %v (want [1 2 3 4]), first YieldRef got %d", map[bool]string{true: " after StartWithVal(1000)", false: ""}[withVal], n, ys, first)
+				break
+			}
+		}
 		// Start twice / StartWithVal after Start are ignored; a never-started coroutine reports neither flag
 		idle := fpgo.CorNewGenerics[int](func() {})
 		if idle.IsStarted() || idle.IsDone() {
@@ -306,7 +360,7 @@ func init() {
 		Meta: func(c *core.Ctx) core.Meta {
 			return core.Meta{
 				Level:       "exploration",
-				Rule:        "topologies of 1..8 caller coroutines with 1..12 requests each (more than the channel buffer of 5) against one target that serves exactly the total, three generator shapes (fixed sequence, echo of the previous x, running accumulate), with and without StartWithVal, with the target held back until 6..16 callers have filled its request channel of 5 (the others block in the hand-over), PRNG yields at cor.YieldRef.taken / cor.YieldFrom.sent / cor.doCloseSafe.checked; x = (caller, i) unique and y_k unique; goroutine-local logs joined by a WaitGroup the effects signal; oracle: every x exactly once at the target, the caller of the request taken as step k received exactly y_k, per-caller positions increase, counts match; StartWithVal value reaches the first YieldRef, DoNotation / YieldFromIO values and single IO effect, YieldFromIO of an IO whose own effect calls YieldFrom through the evaluating coroutine (inline and on a Handler), IsStarted/IsDone inside and after the effect; stuck detector; repeated under -race (deciding for cor.go). distinct_nontrivial = distinct topologies + hook-trace signatures",
+				Rule:        "topologies of 1..8 caller coroutines with 1..12 requests each (more than the channel buffer of 5) against one target that serves exactly the total, three generator shapes (fixed sequence, echo of the previous x, running accumulate), with and without StartWithVal, with the target held back until 6..16 callers have filled its request channel of 5 (the others block in the hand-over), PRNG yields at cor.YieldRef.taken / cor.YieldFrom.sent / cor.doCloseSafe.checked; x = (caller, i) unique and y_k unique; goroutine-local logs joined by a WaitGroup the effects signal; oracle: every x exactly once at the target, the caller of the request taken as step k received exactly y_k, per-caller positions increase, counts match; StartWithVal value reaches the first YieldRef, DoNotation / YieldFromIO values and single IO effect, YieldFromIO of an IO whose own effect calls YieldFrom through the evaluating coroutine (inline and on a Handler), IsStarted/IsDone inside and after the effect; Start()/StartWithVal() followed at once by further Start() calls (400 rounds: one instance of the effect, answers in order); stuck detector; repeated under -race (deciding for cor.go). distinct_nontrivial = distinct topologies + hook-trace signatures",
 				Assumptions: []string{"only while the target has YieldRefs left to serve (statement); YieldFrom on a finished target is property C15", "the y of the YieldRef that consumes the StartWithVal value has no recipient by design"},
 			}
 		},
